@@ -268,6 +268,10 @@ class ScriptedPeer(object):
                     send(b"204 No Content", b"", length=False)
                 elif item == "B3":
                     send(b"304 Not Modified", b"", length=False)
+                elif item == "B103":
+                    send(b"103 Early Hints", b"", length=False)        # (status numbers that coincide with errno values)
+                elif item == "B104":
+                    send(b"104 Odd", b"", length=False)
                 elif item == "TR":
                     full = reply_json(token)
                     conn.sendall(b"HTTP/1.1 200 OK\r\nContent-Type: application/json-rpc\r\nContent-Length: " + str(len(full) + 50).encode() + b"\r\n\r\n" + full[:5])
@@ -287,6 +291,11 @@ class ScriptedPeer(object):
                     err = {"code": -32601, "message": "Method not found"} if item == "J601" else {"code": 42, "message": "app", "data": {"k": [1, 2]}}
                     d = {"jsonrpc": "2.0", "id": rid, "error": err} if v2 else {"id": rid, "result": None, "error": err}
                     send(b"200 OK", json.dumps(d).encode())
+                elif item == "JRAW":
+                    # a result sent as raw UTF-8 (not \\u-escaped): decomposed and compatibility characters, as they are
+                    d = {"jsonrpc": "2.0", "id": rid, "result": ["cafe\u0301", "\u212b", {"k\u0308": "\u1e9b\u0323"}]} if v2 else \
+                        {"id": rid, "result": ["cafe\u0301", "\u212b", {"k\u0308": "\u1e9b\u0323"}], "error": None}
+                    send(b"200 OK", json.dumps(d, ensure_ascii=False).encode("utf-8"))
                 elif item == "E0":
                     send(b"200 OK", b"")
                 elif item == "NJ":
